@@ -18,6 +18,8 @@ def gen_jobs(ctx):
         {"eps": 2, "format": "fb", "pre": [], "session": {"kind": "filler", "sub": [], "ops": [W(), W(), W(), W(1)]}, "max_points": mp},
         # continued root session (the list the description points to is rewritten)
         {"eps": 2, "format": "fb", "pre": [{"sub": [], "ops": [W()] * 3 + [W(1)]}], "session": {"kind": "filler", "sub": [], "ops": [W(), W(), W()]}, "max_points": mp},
+        # the same continued session in a process whose temporary directory is on another file system (TMPDIR on tmpfs)
+        {"eps": 2, "format": "fb", "pre": [{"sub": [], "ops": [W()] * 3 + [W(1)]}], "session": {"kind": "filler", "sub": [], "ops": [W(), W(), W()]}, "max_points": mp, "other_fs_tmp": True},
         # continued session into a known sub-directory, npz (several write calls per shard)
         {"eps": 2, "format": "npz", "pre": [{"sub": [7], "ops": [W()] * 3}, {"sub": [], "ops": [W()]}], "session": {"kind": "filler", "sub": [7], "ops": [W(), W(), W()]}, "max_points": mp},
         # multi-writer call on top of committed data
